@@ -221,15 +221,17 @@ Proof. intros s L B. pose proof (sum_words_bound s B) as H. rewrite L in H. chan
 
 Ltac cells4 s L := destruct s as [|? [|? [|? [|? [|? ?]]]]]; try (cbn in L; discriminate L).
 
-Lemma build_ipv4_udp_frame_ok : forall v src dst sp dp payload s4 d4,
+Lemma build_ipv4_udp_frame_ok : forall v ovf src dst sp dp payload s4 d4,
   to4 src = Some s4 -> to4 dst = Some d4 -> ip_ok src -> ip_ok dst -> bytes_ok payload ->
   sp < 65536 -> dp < 65536 -> blen payload <= 65507 ->
-  exists f, build_ipv4_udp_frame v src dst sp dp payload = Ok (Some f) /\ frame4_ok f payload /\
+  exists f, build_ipv4_udp_frame v ovf src dst sp dp payload = Ok (Some f) /\ frame4_ok f payload /\
             (v = Repaired -> firstn 2 (skipn 26 f) <> [0; 0]).
 Proof.
-  intros v src dst sp dp payload s4 d4 Hs Hd Os Od Bp Hsp Hdp Hl.
+  intros v ovf src dst sp dp payload s4 d4 Hs Hd Os Od Bp Hsp Hdp Hl.
   destruct (to4_some _ _ Hs Os) as [Ls Bs]. destruct (to4_some _ _ Hd Od) as [Ld Bd].
-  unfold build_ipv4_udp_frame. rewrite Hs, Hd.
+  unfold build_ipv4_udp_frame. rewrite Hs, Hd. cbn zeta.
+  replace (ovf && (65535 <? 20 + (8 + blen payload)))%bool with false
+    by (destruct ovf; cbn [andb]; [symmetry; apply N.ltb_ge; lia|reflexivity]).
   set (ulen := 8 + blen payload). set (total := 20 + ulen).
   assert (Hul : ulen < 65536) by (subst ulen; lia).
   rewrite ip4_header_skip by assumption.
@@ -286,15 +288,17 @@ Qed.
 
 Ltac cells16 s L := do 16 (destruct s as [|? s]; [cbn in L; discriminate L|]); destruct s; [|cbn in L; discriminate L].
 
-Lemma build_ipv6_udp_frame_ok : forall src dst sp dp payload s16 d16,
+Lemma build_ipv6_udp_frame_ok : forall ovf src dst sp dp payload s16 d16,
   to16 src = Some s16 -> to16 dst = Some d16 -> ip_ok src -> ip_ok dst -> bytes_ok payload ->
   sp < 65536 -> dp < 65536 -> blen payload <= 65527 ->
-  exists f, build_ipv6_udp_frame src dst sp dp payload = Ok (Some f) /\ frame6_ok f payload /\
+  exists f, build_ipv6_udp_frame ovf src dst sp dp payload = Ok (Some f) /\ frame6_ok f payload /\
             firstn 2 (skipn 46 f) <> [0; 0].
 Proof.
-  intros src dst sp dp payload s16 d16 Hs Hd Os Od Bp Hsp Hdp Hl.
+  intros ovf src dst sp dp payload s16 d16 Hs Hd Os Od Bp Hsp Hdp Hl.
   destruct (to16_some _ _ Hs Os) as [Ls Bs]. destruct (to16_some _ _ Hd Od) as [Ld Bd].
-  unfold build_ipv6_udp_frame. rewrite Hs, Hd.
+  unfold build_ipv6_udp_frame. rewrite Hs, Hd. cbn zeta.
+  replace (ovf && (65535 <? 8 + blen payload))%bool with false
+    by (destruct ovf; cbn [andb]; [symmetry; apply N.ltb_ge; lia|reflexivity]).
   set (ulen := 8 + blen payload).
   assert (Hul : ulen < 65536) by (subst ulen; lia).
   unfold udp6_csum. rewrite udp_seg_skip by assumption.
@@ -1040,51 +1044,51 @@ Lemma firstn_pad : forall (hw : bytes) n m, (length hw <= n)%nat -> (n <= length
   firstn n (hw ++ zeros m) = hw ++ zeros (n - length hw).
 Proof. intros. rewrite firstn_app, firstn_all2 by lia. rewrite firstn_zeros by lia. reflexivity. Qed.
 
-Lemma reply_decodes : forall xid ci yi si hw mt opts,
+Lemma reply_decodes : forall pad xid ci yi si hw mt opts,
   xid < 4294967296 -> (length hw <= 16)%nat -> Forall opt_code_ok opts ->
-  exists p view, build_dhcp4_reply Repaired xid ci yi si hw mt opts = Ok p /\ ref_decode4 p = Some view /\
+  exists p view, build_dhcp4_reply Repaired pad xid ci yi si hw mt opts = Ok p /\ ref_decode4 p = Some view /\
     v_op view = 2 /\ v_xid view = xid /\ v_yiaddr view = ip4_field yi /\ v_ciaddr view = ip4_field ci /\
     v_chaddr view = hw ++ zeros (16 - length hw) /\
-    v_cookie_ok view = true /\ v_end view = EndSeen [] /\
+    v_cookie_ok view = true /\ v_end view = EndSeen (zeros pad) /\
     Forall (fun o => (length (snd o) <= 255)%nat /\ fst o <> 0 /\ fst o <> 255) (v_opts view) /\
     forall code, opt_value code (v_opts view) = concat (map snd (filter (has_code code) ((53, [mt mod 256]) :: opts))).
 Proof.
-  intros xid ci yi si hw mt opts Hx Hhw Hok.
+  intros pad xid ci yi si hw mt opts Hx Hhw Hok.
   assert (Hok' : Forall opt_code_ok ((53, [mt mod 256]) :: opts)) by (constructor; [split; cbn; lia|assumption]).
   destruct (write_opts_enc _ Hok') as [E [Oki V]]. cbn zeta in E, Oki, V. fold (reply_items mt opts) in E, Oki, V.
   unfold build_dhcp4_reply. destruct (Nat.ltb_spec 212 (length hw)); [lia|].
   assert (Ep : [2; 1; 6; 0] ++ put32 xid ++ zeros 4 ++ ip4_field ci ++ ip4_field yi ++ ip4_field si ++ zeros 4 ++
-               firstn 208 (hw ++ zeros 208) ++ magic ++ add_opt Repaired 53 [mt mod 256] ++ write_opts Repaired opts ++ [255]
-               = wf_pkt (reply_hdr xid ci yi si hw) (reply_items mt opts) [255]).
+               firstn 208 (hw ++ zeros 208) ++ magic ++ add_opt Repaired 53 [mt mod 256] ++ write_opts Repaired opts ++ [255] ++ zeros pad
+               = wf_pkt (reply_hdr xid ci yi si hw) (reply_items mt opts) (255 :: zeros pad)).
   { unfold wf_pkt, reply_hdr. rewrite <- E. unfold write_opts. cbn [map concat fst snd]. rewrite <- !app_assoc. reflexivity. }
   rewrite Ep. pose proof (reply_hdr_length xid ci yi si hw) as LH.
   eexists. eexists. split; [reflexivity|]. unfold ref_decode4. rewrite wf_pkt_len by assumption.
   rewrite ref_options_wf by (try assumption; right; eexists; reflexivity). split; [reflexivity|]. cbn [v_op v_xid v_yiaddr v_ciaddr v_chaddr v_cookie_ok v_end v_opts].
-  set (tail := enc (reply_items mt opts) ++ [255]).
+  set (tail := enc (reply_items mt opts) ++ 255 :: zeros pad).
   assert (Fl : forall ip, length (ip4_field ip) = 4%nat) by (intros; apply field_length).
   split; [reflexivity|]. split; [|split; [|split; [|split; [|split; [|split; [|split]]]]]].
   - unfold wf_pkt, reply_hdr. rewrite <- !app_assoc.
     rewrite (block [2; 1; 6; 0] (put32 xid) _ 4 4) by reflexivity. apply be_num_put32. assumption.
   - unfold wf_pkt, reply_hdr. rewrite <- !app_assoc.
-    replace ([2; 1; 6; 0] ++ put32 xid ++ zeros 4 ++ ip4_field ci ++ ip4_field yi ++ ip4_field si ++ zeros 4 ++ firstn 208 (hw ++ zeros 208) ++ magic ++ enc (reply_items mt opts) ++ [255])
-      with (([2; 1; 6; 0] ++ put32 xid ++ zeros 4 ++ ip4_field ci) ++ ip4_field yi ++ (ip4_field si ++ zeros 4 ++ firstn 208 (hw ++ zeros 208) ++ magic ++ enc (reply_items mt opts) ++ [255]))
+    replace ([2; 1; 6; 0] ++ put32 xid ++ zeros 4 ++ ip4_field ci ++ ip4_field yi ++ ip4_field si ++ zeros 4 ++ firstn 208 (hw ++ zeros 208) ++ magic ++ enc (reply_items mt opts) ++ 255 :: zeros pad)
+      with (([2; 1; 6; 0] ++ put32 xid ++ zeros 4 ++ ip4_field ci) ++ ip4_field yi ++ (ip4_field si ++ zeros 4 ++ firstn 208 (hw ++ zeros 208) ++ magic ++ enc (reply_items mt opts) ++ 255 :: zeros pad))
       by (rewrite <- !app_assoc; reflexivity).
     apply block; [rewrite !app_length, Fl; reflexivity|apply Fl].
   - unfold wf_pkt, reply_hdr. rewrite <- !app_assoc.
-    replace ([2; 1; 6; 0] ++ put32 xid ++ zeros 4 ++ ip4_field ci ++ ip4_field yi ++ ip4_field si ++ zeros 4 ++ firstn 208 (hw ++ zeros 208) ++ magic ++ enc (reply_items mt opts) ++ [255])
-      with (([2; 1; 6; 0] ++ put32 xid ++ zeros 4) ++ ip4_field ci ++ (ip4_field yi ++ ip4_field si ++ zeros 4 ++ firstn 208 (hw ++ zeros 208) ++ magic ++ enc (reply_items mt opts) ++ [255]))
+    replace ([2; 1; 6; 0] ++ put32 xid ++ zeros 4 ++ ip4_field ci ++ ip4_field yi ++ ip4_field si ++ zeros 4 ++ firstn 208 (hw ++ zeros 208) ++ magic ++ enc (reply_items mt opts) ++ 255 :: zeros pad)
+      with (([2; 1; 6; 0] ++ put32 xid ++ zeros 4) ++ ip4_field ci ++ (ip4_field yi ++ ip4_field si ++ zeros 4 ++ firstn 208 (hw ++ zeros 208) ++ magic ++ enc (reply_items mt opts) ++ 255 :: zeros pad))
       by (rewrite <- !app_assoc; reflexivity).
     apply block; [reflexivity|apply Fl].
   - unfold wf_pkt, reply_hdr. rewrite <- !app_assoc.
-    replace ([2; 1; 6; 0] ++ put32 xid ++ zeros 4 ++ ip4_field ci ++ ip4_field yi ++ ip4_field si ++ zeros 4 ++ firstn 208 (hw ++ zeros 208) ++ magic ++ enc (reply_items mt opts) ++ [255])
-      with (([2; 1; 6; 0] ++ put32 xid ++ zeros 4 ++ ip4_field ci ++ ip4_field yi ++ ip4_field si ++ zeros 4) ++ (firstn 208 (hw ++ zeros 208) ++ magic ++ enc (reply_items mt opts) ++ [255]))
+    replace ([2; 1; 6; 0] ++ put32 xid ++ zeros 4 ++ ip4_field ci ++ ip4_field yi ++ ip4_field si ++ zeros 4 ++ firstn 208 (hw ++ zeros 208) ++ magic ++ enc (reply_items mt opts) ++ 255 :: zeros pad)
+      with (([2; 1; 6; 0] ++ put32 xid ++ zeros 4 ++ ip4_field ci ++ ip4_field yi ++ ip4_field si ++ zeros 4) ++ (firstn 208 (hw ++ zeros 208) ++ magic ++ enc (reply_items mt opts) ++ 255 :: zeros pad))
       by (rewrite <- !app_assoc; reflexivity).
     rewrite skipn_exact by (rewrite !app_length, !Fl; reflexivity).
     rewrite firstn_app, mid_length. change (16 - 208)%nat with 0%nat. rewrite firstn_O, app_nil_r.
     rewrite firstn_firstn. change (Nat.min 16 208) with 16%nat. apply firstn_pad; lia.
   - unfold wf_pkt, reply_hdr. rewrite <- !app_assoc.
-    replace ([2; 1; 6; 0] ++ put32 xid ++ zeros 4 ++ ip4_field ci ++ ip4_field yi ++ ip4_field si ++ zeros 4 ++ firstn 208 (hw ++ zeros 208) ++ magic ++ enc (reply_items mt opts) ++ [255])
-      with (([2; 1; 6; 0] ++ put32 xid ++ zeros 4 ++ ip4_field ci ++ ip4_field yi ++ ip4_field si ++ zeros 4 ++ firstn 208 (hw ++ zeros 208)) ++ magic ++ (enc (reply_items mt opts) ++ [255]))
+    replace ([2; 1; 6; 0] ++ put32 xid ++ zeros 4 ++ ip4_field ci ++ ip4_field yi ++ ip4_field si ++ zeros 4 ++ firstn 208 (hw ++ zeros 208) ++ magic ++ enc (reply_items mt opts) ++ 255 :: zeros pad)
+      with (([2; 1; 6; 0] ++ put32 xid ++ zeros 4 ++ ip4_field ci ++ ip4_field yi ++ ip4_field si ++ zeros 4 ++ firstn 208 (hw ++ zeros 208)) ++ magic ++ (enc (reply_items mt opts) ++ 255 :: zeros pad))
       by (rewrite <- !app_assoc; reflexivity).
     rewrite block; [reflexivity| |reflexivity]. rewrite !app_length, !Fl, mid_length. reflexivity.
   - reflexivity.
@@ -1224,14 +1228,16 @@ Proof.
   repeat split; try exact Hv; destruct (N.eqb_spec c 0); lia.
 Qed.
 
-Lemma wrap_ip_udp_ok : forall v payload src dst s4 d4,
+Lemma wrap_ip_udp_ok : forall v ovf payload src dst s4 d4,
   to4 src = Some s4 -> to4 dst = Some d4 -> ip_ok src -> ip_ok dst -> bytes_ok payload -> blen payload <= 65507 ->
-  exists f, wrap_ip_udp v payload src dst = Ok f /\ frame4_ok f payload /\ frame4_fields f s4 d4 67 68 /\
+  exists f, wrap_ip_udp v ovf payload src dst = Ok f /\ frame4_ok f payload /\ frame4_fields f s4 d4 67 68 /\
             firstn 2 (skipn 26 f) <> [0; 0].
 Proof.
-  intros v payload src dst s4 d4 Hs Hd Os Od Bp Hl.
+  intros v ovf payload src dst s4 d4 Hs Hd Os Od Bp Hl.
   destruct (to4_some _ _ Hs Os) as [Ls Bs]. destruct (to4_some _ _ Hd Od) as [Ld Bd].
-  unfold wrap_ip_udp. rewrite Hs, Hd.
+  unfold wrap_ip_udp. rewrite Hs, Hd. cbn zeta.
+  replace (ovf && (65535 <? 20 + (8 + blen payload)))%bool with false
+    by (destruct ovf; cbn [andb]; [symmetry; apply N.ltb_ge; lia|reflexivity]).
   set (ulen := 8 + blen payload). set (total := 20 + ulen).
   destruct (header_csum_exists total s4 d4 Ls Ld Bs Bd) as [hc Hhc]. rewrite Hhc. cbn [rbind].
   destruct (ip4_header_verifies total s4 d4 hc hc Ls Ld Bs Bd Hhc eq_refl) as [Hhc16 Hhv].
@@ -1248,15 +1254,17 @@ Proof.
   unfold put16, byte_of. intros Hz. injection Hz as H1 H2. lia.
 Qed.
 
-Lemma build_udp_packet_ok : forall src dst sp dp payload s4 d4,
+Lemma build_udp_packet_ok : forall ovf src dst sp dp payload s4 d4,
   to4 src = Some s4 -> to4 dst = Some d4 -> ip_ok src -> ip_ok dst -> bytes_ok payload ->
   sp < 65536 -> dp < 65536 -> blen payload <= 65507 ->
-  exists f, build_udp_packet src dst sp dp payload = Ok f /\ frame4_ok f payload /\ frame4_fields f s4 d4 sp dp /\
+  exists f, build_udp_packet ovf src dst sp dp payload = Ok f /\ frame4_ok f payload /\ frame4_fields f s4 d4 sp dp /\
             firstn 2 (skipn 26 f) <> [0; 0].
 Proof.
-  intros src dst sp dp payload s4 d4 Hs Hd Os Od Bp Hsp Hdp Hl.
+  intros ovf src dst sp dp payload s4 d4 Hs Hd Os Od Bp Hsp Hdp Hl.
   destruct (to4_some _ _ Hs Os) as [Ls Bs]. destruct (to4_some _ _ Hd Od) as [Ld Bd].
-  unfold build_udp_packet. rewrite (field4_id _ _ Hs), (field4_id _ _ Hd).
+  unfold build_udp_packet. rewrite (field4_id _ _ Hs), (field4_id _ _ Hd). cbn zeta.
+  replace (ovf && (65535 <? 20 + (8 + blen payload)))%bool with false
+    by (destruct ovf; cbn [andb]; [symmetry; apply N.ltb_ge; lia|reflexivity]).
   set (ulen := 8 + blen payload). set (total := 20 + ulen).
   assert (Hul : ulen < 65536) by (subst ulen; lia).
   destruct (header_csum_exists total s4 d4 Ls Ld Bs Bd) as [hc Hhc]. rewrite Hhc. cbn [rbind].
@@ -1275,12 +1283,13 @@ Proof.
   unfold put16, byte_of. intros Hz. injection Hz as H1 H2. lia.
 Qed.
 
-Lemma build_ipv4_udp_frame_fields : forall v src dst sp dp payload s4 d4 f,
-  to4 src = Some s4 -> to4 dst = Some d4 -> build_ipv4_udp_frame v src dst sp dp payload = Ok (Some f) ->
+Lemma build_ipv4_udp_frame_fields : forall v ovf src dst sp dp payload s4 d4 f,
+  to4 src = Some s4 -> to4 dst = Some d4 -> build_ipv4_udp_frame v ovf src dst sp dp payload = Ok (Some f) ->
   frame4_fields f s4 d4 sp dp.
 Proof.
-  intros v src dst sp dp payload s4 d4 f Hs Hd H. pose proof (to4_length _ _ Hs) as Ls. pose proof (to4_length _ _ Hd) as Ld.
-  unfold build_ipv4_udp_frame in H. rewrite Hs, Hd in H.
+  intros v ovf src dst sp dp payload s4 d4 f Hs Hd H. pose proof (to4_length _ _ Hs) as Ls. pose proof (to4_length _ _ Hd) as Ld.
+  unfold build_ipv4_udp_frame in H. rewrite Hs, Hd in H. cbn zeta in H.
+  destruct (ovf && (65535 <? 20 + (8 + blen payload)))%bool; [discriminate|].
   destruct (csum_finish _) as [hc| | |]; cbn [rbind] in H; try discriminate.
   destruct (udp4_csum _ _ _ _) as [uc| | |]; cbn [rbind] in H; try discriminate.
   assert (E : f = ip4_header (20 + (8 + blen payload)) s4 d4 hc ++ udp_header sp dp (8 + blen payload) uc ++ payload) by congruence.
@@ -1353,11 +1362,11 @@ Proof.
   induction opts as [|[c d] r IH]; [reflexivity|]. inversion H; subst. cbn [map concat fst snd] in *.
   rewrite split_items_small by assumption. cbn [app opts_of]. f_equal. apply IH. assumption.
 Qed.
-Lemma reply_shape : forall xid ci yi si hw mt opts, (length hw <= 212)%nat -> Forall opt_code_ok opts ->
-  build_dhcp4_reply Repaired xid ci yi si hw mt opts = Ok (wf_pkt (reply_hdr xid ci yi si hw) (reply_items mt opts) [255]) /\
+Lemma reply_shape : forall pad xid ci yi si hw mt opts, (length hw <= 212)%nat -> Forall opt_code_ok opts ->
+  build_dhcp4_reply Repaired pad xid ci yi si hw mt opts = Ok (wf_pkt (reply_hdr xid ci yi si hw) (reply_items mt opts) (255 :: zeros pad)) /\
   Forall item_ok (reply_items mt opts).
 Proof.
-  intros xid ci yi si hw mt opts Hhw Hok.
+  intros pad xid ci yi si hw mt opts Hhw Hok.
   assert (Hok' : Forall opt_code_ok ((53, [mt mod 256]) :: opts)) by (constructor; [split; cbn; lia|assumption]).
   destruct (write_opts_enc _ Hok') as [E [Oki V]]. cbn zeta in E, Oki. fold (reply_items mt opts) in E, Oki.
   split; [|exact Oki]. unfold build_dhcp4_reply. destruct (Nat.ltb_spec 212 (length hw)); [lia|]. f_equal.
@@ -1392,10 +1401,10 @@ Proof.
   induction opts as [|[c d] r IH]; intros H; [constructor|]. inversion H as [|? ? [Hc Hd] Hr]; subst.
   unfold write_opts. cbn [map concat]. apply Forall_app. split; [apply add_opt_split_bytes; assumption|apply IH; assumption].
 Qed.
-Lemma reply_bytes : forall xid ci yi si hw mt opts p, ip_ok ci -> ip_ok yi -> ip_ok si -> bytes_ok hw -> Forall opt_bytes_ok opts ->
-  build_dhcp4_reply Repaired xid ci yi si hw mt opts = Ok p -> bytes_ok p.
+Lemma reply_bytes : forall pad xid ci yi si hw mt opts p, ip_ok ci -> ip_ok yi -> ip_ok si -> bytes_ok hw -> Forall opt_bytes_ok opts ->
+  build_dhcp4_reply Repaired pad xid ci yi si hw mt opts = Ok p -> bytes_ok p.
 Proof.
-  intros xid ci yi si hw mt opts p Hci Hyi Hsi Hhw Hopts H. unfold build_dhcp4_reply in H.
+  intros pad xid ci yi si hw mt opts p Hci Hyi Hsi Hhw Hopts H. unfold build_dhcp4_reply in H.
   destruct (212 <? length hw)%nat; [discriminate|]. match type of H with Ok ?x = Ok _ => assert (E : p = x) by congruence end. subst p. clear H.
   unfold magic, add_opt.
   repeat (apply Forall_app; split);
@@ -1489,26 +1498,26 @@ Qed.
 
 Definition bcast : bytes := [255; 255; 255; 255].
 
-Lemma resolved_reply : forall xid ci hw mt yip router sid mask dns lease routes extra src s4,
+Lemma resolved_reply : forall ovf pad xid ci hw mt yip router sid mask dns lease routes extra src s4,
   xid < 4294967296 -> (length hw <= 16)%nat -> lease < 4294967296 ->
   ip_ok ci -> ip_ok yip -> ip_ok router -> ip_ok sid -> bytes_ok hw -> bytes_ok mask -> Forall ip_ok dns ->
   Forall route_ok routes -> Forall (fun r => ip_ok (snd (fst r)) /\ ip_ok (snd r)) routes -> Forall raw_ok extra ->
   src = match sid with Some _ => sid | None => router end -> to4 src = Some s4 ->
   exists rt payload view,
     (routes <> [] -> classless routes = Ok rt /\ ref_routes (length routes + 1) rt = Some (map route_view routes)) /\
-    build_dhcp4_reply Repaired xid ci yip src hw mt (resolved_opts lease mask sid router dns rt routes extra) = Ok payload /\
+    build_dhcp4_reply Repaired pad xid ci yip src hw mt (resolved_opts lease mask sid router dns rt routes extra) = Ok payload /\
     bytes_ok payload /\
     (blen payload <= 65507 ->
-       exists f, build_response_resolved Repaired xid ci hw mt yip router sid mask dns lease routes extra = Ok (Some f) /\
+       exists f, build_response_resolved Repaired ovf pad xid ci hw mt yip router sid mask dns lease routes extra = Ok (Some f) /\
                  frame4_ok f payload /\ frame4_fields f s4 bcast 67 68 /\ firstn 2 (skipn 26 f) <> [0; 0]) /\
     ref_decode4 payload = Some view /\ v_op view = 2 /\ v_xid view = xid /\ v_yiaddr view = ip4_field yip /\
-    v_siaddr view = s4 /\ v_chaddr view = hw ++ zeros (16 - length hw) /\ v_cookie_ok view = true /\ v_end view = EndSeen [] /\
+    v_siaddr view = s4 /\ v_chaddr view = hw ++ zeros (16 - length hw) /\ v_cookie_ok view = true /\ v_end view = EndSeen (zeros pad) /\
     (forall code, opt_value code (v_opts view) =
                   concat (map snd (filter (has_code code) ((53, [mt mod 256]) :: resolved_opts lease mask sid router dns rt routes extra)))) /\
     ((length mask <= 255)%nat -> (length (dns_data dns) <= 255)%nat -> (length rt <= 255)%nat ->
        v_opts view = (53, [mt mod 256]) :: resolved_opts lease mask sid router dns rt routes extra).
 Proof.
-  intros xid ci hw mt yip router sid mask dns lease routes extra src s4 Hx Hhw Hlease Oci Oyi Orouter Osid Bhw Bmask Odns Hroutes Broutes Hextra Esrc Hsrc.
+  intros ovf pad xid ci hw mt yip router sid mask dns lease routes extra src s4 Hx Hhw Hlease Oci Oyi Orouter Osid Bhw Bmask Odns Hroutes Broutes Hextra Esrc Hsrc.
   (* the classless-route bytes *)
   destruct (classless_roundtrip routes 0 Hroutes) as [rt0 [Ert0 Rrt0]].
   set (rt := match routes with [] => [] | _ => rt0 end).
@@ -1550,23 +1559,23 @@ Proof.
             | solve [destruct sid; [apply nz_Forall; assumption|constructor]] | solve [destruct router; [apply nz_Forall; assumption|constructor]]
             | solve [destruct dns; [constructor|apply nz_Forall; assumption]] | solve [destruct routes; [constructor|assumption]] ]. }
   destruct Hcodes as [Hco Hbo].
-  destruct (reply_decodes xid ci yip src hw mt opts Hx Hhw Hco) as [payload [view [Ep [Ev [V1 [V2 [V3 [V4 [V5 [V6 [V7 [V8 V9]]]]]]]]]]]].
+  destruct (reply_decodes pad xid ci yip src hw mt opts Hx Hhw Hco) as [payload [view [Ep [Ev [V1 [V2 [V3 [V4 [V5 [V6 [V7 [V8 V9]]]]]]]]]]]].
   exists rt, payload, view.
-  pose proof (reply_bytes _ _ _ _ _ _ _ _ Oci Oyi Hsrc_ok Bhw Hbo Ep) as Bpayload.
+  pose proof (reply_bytes _ _ _ _ _ _ _ _ _ Oci Oyi Hsrc_ok Bhw Hbo Ep) as Bpayload.
   split; [|split; [exact Ep|split; [exact Bpayload|split; [|split; [exact Ev|]]]]].
   - intros Hne. subst rt. destruct routes as [|r0 rs]; [contradiction|]. split; [exact Ert0|exact Rrt0].
   - intros Hlen. unfold build_response_resolved. rewrite <- Esrc, Hrt. cbn [rbind].
-    match goal with |- context [build_dhcp4_reply Repaired xid ci yip src hw mt ?o] => change o with opts end.
+    match goal with |- context [build_dhcp4_reply Repaired pad xid ci yip src hw mt ?o] => change o with opts end.
     rewrite Ep. cbn [rbind]. change [255; 255; 255; 255] with bcast.
     assert (Hb : to4 (Some bcast) = Some bcast) by reflexivity.
-    destruct (build_ipv4_udp_frame_ok Repaired src (Some bcast) 67 68 payload s4 bcast Hsrc Hb Hsrc_ok) as [f [Ef [Fok Fnz]]];
+    destruct (build_ipv4_udp_frame_ok Repaired ovf src (Some bcast) 67 68 payload s4 bcast Hsrc Hb Hsrc_ok) as [f [Ef [Fok Fnz]]];
       try assumption; try lia; [unfold bcast; repeat constructor; unfold byte; lia|].
     exists f. split; [exact Ef|]. split; [exact Fok|]. split; [|apply Fnz; reflexivity].
     eapply build_ipv4_udp_frame_fields; eassumption.
-  - destruct (reply_shape xid ci yip src hw mt opts ltac:(lia) Hco) as [Esh Oki]. rewrite Ep in Esh.
-    assert (Epay : payload = wf_pkt (reply_hdr xid ci yip src hw) (reply_items mt opts) [255]) by congruence.
+  - destruct (reply_shape pad xid ci yip src hw mt opts ltac:(lia) Hco) as [Esh Oki]. rewrite Ep in Esh.
+    assert (Epay : payload = wf_pkt (reply_hdr xid ci yip src hw) (reply_items mt opts) (255 :: zeros pad)) by congruence.
     pose proof (reply_hdr_length xid ci yip src hw) as LH.
-    assert (Etl : wf_tail [255]) by (right; exists []; reflexivity).
+    assert (Etl : wf_tail (255 :: zeros pad)) by (right; eexists; reflexivity).
     assert (Evo : v_opts view = opts_of (reply_items mt opts) /\ v_siaddr view = firstn 4 (skipn 20 payload)).
     { clear - Ev Epay LH Oki Etl. subst payload. unfold ref_decode4 in Ev. rewrite wf_pkt_len in Ev by assumption.
       rewrite ref_options_wf in Ev by assumption. injection Ev as <-. cbn [v_opts v_siaddr]. split; reflexivity. }
@@ -1576,7 +1585,7 @@ Proof.
       assert (Fl : forall ip, length (ip4_field ip) = 4%nat) by (intros; apply field_length).
       match goal with |- firstn 4 (skipn 20 ?l) = _ =>
         replace l with (([2; 1; 6; 0] ++ put32 xid ++ zeros 4 ++ ip4_field ci ++ ip4_field yip) ++ ip4_field src ++
-                        (zeros 4 ++ firstn 208 (hw ++ zeros 208) ++ magic ++ enc (reply_items mt opts) ++ [255]))
+                        (zeros 4 ++ firstn 208 (hw ++ zeros 208) ++ magic ++ enc (reply_items mt opts) ++ 255 :: zeros pad))
           by (rewrite <- !app_assoc; reflexivity) end.
       rewrite block; [|rewrite !app_length, !Fl; reflexivity|apply Fl]. unfold ip4_field. apply field4_id. exact Hsrc.
     + intros L1 L2 L3. rewrite Evo. apply reply_items_small. subst opts. unfold resolved_opts.
@@ -1603,20 +1612,20 @@ Proof.
   apply Forall_app. split; [|apply IH; assumption]. pose proof (to4_bytes d ltac:(assumption)) as B. destruct (to4 d); [exact B|constructor].
 Qed.
 
-Lemma pool_reply : forall xid ci hw mt ip gateway g4 mask dns lease extra,
+Lemma pool_reply : forall ovf pad xid ci hw mt ip gateway g4 mask dns lease extra,
   xid < 4294967296 -> (length hw <= 16)%nat -> ip_ok ci -> ip_ok ip -> ip_ok gateway -> bytes_ok hw -> bytes_ok mask ->
   Forall ip_ok dns -> Forall raw_ok extra -> to4 gateway = Some g4 ->
   exists payload view,
-    build_dhcp4_reply Repaired xid ci ip gateway hw mt (pool_opts lease mask g4 dns extra) = Ok payload /\ bytes_ok payload /\
+    build_dhcp4_reply Repaired pad xid ci ip gateway hw mt (pool_opts lease mask g4 dns extra) = Ok payload /\ bytes_ok payload /\
     (blen payload <= 65507 ->
-       exists f, build_response_pool Repaired xid ci hw mt ip gateway mask dns lease extra = Ok (Some f) /\
+       exists f, build_response_pool Repaired ovf pad xid ci hw mt ip gateway mask dns lease extra = Ok (Some f) /\
                  frame4_ok f payload /\ frame4_fields f g4 bcast 67 68 /\ firstn 2 (skipn 26 f) <> [0; 0]) /\
     ref_decode4 payload = Some view /\ v_op view = 2 /\ v_xid view = xid /\ v_yiaddr view = ip4_field ip /\
-    v_chaddr view = hw ++ zeros (16 - length hw) /\ v_cookie_ok view = true /\ v_end view = EndSeen [] /\
+    v_chaddr view = hw ++ zeros (16 - length hw) /\ v_cookie_ok view = true /\ v_end view = EndSeen (zeros pad) /\
     (forall code, opt_value code (v_opts view) =
                   concat (map snd (filter (has_code code) ((53, [mt mod 256]) :: pool_opts lease mask g4 dns extra)))).
 Proof.
-  intros xid ci hw mt ip gateway g4 mask dns lease extra Hx Hhw Oci Oip Ogw Bhw Bmask Odns Hextra Hgw.
+  intros ovf pad xid ci hw mt ip gateway g4 mask dns lease extra Hx Hhw Oci Oip Ogw Bhw Bmask Odns Hextra Hgw.
   destruct (to4_some _ _ Hgw Ogw) as [Lg Bg].
   set (opts := pool_opts lease mask g4 dns extra).
   assert (Hx1 : Forall opt_code_ok extra /\ Forall opt_bytes_ok extra).
@@ -1635,15 +1644,15 @@ Proof.
       first [ solve [apply nz_Forall; apply S1; assumption] | solve [apply S1; assumption]
             | solve [destruct dns; [constructor|apply nz_Forall; apply S1; assumption]] ]. }
   destruct Hcodes as [Hco Hbo].
-  destruct (reply_decodes xid ci ip gateway hw mt opts Hx Hhw Hco) as [payload [view [Ep [Ev [V1 [V2 [V3 [V4 [V5 [V6 [V7 [V8 V9]]]]]]]]]]]].
+  destruct (reply_decodes pad xid ci ip gateway hw mt opts Hx Hhw Hco) as [payload [view [Ep [Ev [V1 [V2 [V3 [V4 [V5 [V6 [V7 [V8 V9]]]]]]]]]]]].
   exists payload, view.
-  pose proof (reply_bytes _ _ _ _ _ _ _ _ Oci Oip Ogw Bhw Hbo Ep) as Bpayload.
+  pose proof (reply_bytes _ _ _ _ _ _ _ _ _ Oci Oip Ogw Bhw Hbo Ep) as Bpayload.
   split; [exact Ep|]. split; [exact Bpayload|]. split; [|repeat split; assumption].
   intros Hlen. unfold build_response_pool. rewrite Hgw. cbn [opt_bytes].
-  match goal with |- context [build_dhcp4_reply Repaired xid ci ip gateway hw mt ?o] => change o with opts end.
+  match goal with |- context [build_dhcp4_reply Repaired pad xid ci ip gateway hw mt ?o] => change o with opts end.
   rewrite Ep. cbn [rbind]. change [255; 255; 255; 255] with bcast.
   assert (Hb : to4 (Some bcast) = Some bcast) by reflexivity.
-  destruct (build_ipv4_udp_frame_ok Repaired gateway (Some bcast) 67 68 payload g4 bcast Hgw Hb Ogw) as [f [Ef [Fok Fnz]]];
+  destruct (build_ipv4_udp_frame_ok Repaired ovf gateway (Some bcast) 67 68 payload g4 bcast Hgw Hb Ogw) as [f [Ef [Fok Fnz]]];
     try assumption; try lia; [unfold bcast; repeat constructor; unfold byte; lia|].
   exists f. split; [exact Ef|]. split; [exact Fok|]. split; [|apply Fnz; reflexivity].
   eapply build_ipv4_udp_frame_fields; eassumption.
@@ -2087,13 +2096,14 @@ Definition frame6_fields (f s16 d16 : bytes) (sp dp : N) : Prop :=
   firstn 4 f = [96; 0; 0; 0] /\ firstn 2 (skipn 6 f) = [17; 64] /\
   firstn 16 (skipn 8 f) = s16 /\ firstn 16 (skipn 24 f) = d16 /\
   firstn 2 (skipn 40 f) = put16 sp /\ firstn 2 (skipn 42 f) = put16 dp.
-Lemma build_ipv6_udp_frame_fields : forall src dst sp dp payload s16 d16 f,
+Lemma build_ipv6_udp_frame_fields : forall ovf src dst sp dp payload s16 d16 f,
   to16 src = Some s16 -> to16 dst = Some d16 -> ip_ok src -> ip_ok dst ->
-  build_ipv6_udp_frame src dst sp dp payload = Ok (Some f) -> frame6_fields f s16 d16 sp dp.
+  build_ipv6_udp_frame ovf src dst sp dp payload = Ok (Some f) -> frame6_fields f s16 d16 sp dp.
 Proof.
-  intros src dst sp dp payload s16 d16 f Hs Hd Os Od H.
+  intros ovf src dst sp dp payload s16 d16 f Hs Hd Os Od H.
   destruct (to16_some _ _ Hs Os) as [Ls _]. destruct (to16_some _ _ Hd Od) as [Ld _].
-  unfold build_ipv6_udp_frame in H. rewrite Hs, Hd in H.
+  unfold build_ipv6_udp_frame in H. rewrite Hs, Hd in H. cbn zeta in H.
+  destruct (ovf && (65535 <? 8 + blen payload))%bool; [discriminate|].
   destruct (udp6_csum _ _ _) as [uc| | |]; cbn [rbind] in H; try discriminate.
   assert (E : f = ip6_header (8 + blen payload) s16 d16 ++ udp_header sp dp (8 + blen payload) uc ++ payload) by congruence.
   subst f. cells16 s16 Ls. cells16 d16 Ld. unfold frame6_fields, ip6_header, udp_header, put16. cbn [app firstn skipn]. repeat split.
@@ -2286,9 +2296,10 @@ Proof.
   destruct (N.eq_dec m 0) as [->|Hz]; [eexists; reflexivity|].
   destruct (fold_loop_spec m ltac:(lia) Hm) as [r [Hr _]]. rewrite Hr. eexists. reflexivity.
 Qed.
-Lemma wrap_never_crashes : forall payload src dst, exists f, wrap_ip_udp Repaired payload src dst = Ok f.
+Lemma wrap_never_crashes : forall ovf payload src dst, exists f, wrap_ip_udp Repaired ovf payload src dst = Ok f.
 Proof.
   intros. unfold wrap_ip_udp. destruct (to4 src) as [s4|]; [|eexists; reflexivity]. destruct (to4 dst) as [d4|]; [|eexists; reflexivity].
+  cbn zeta. destruct (ovf && _)%bool; [eexists; reflexivity|].
   destruct (csum_finish_ok (sum_words (ip4_header (20 + (8 + blen payload)) s4 d4 0))) as [hc ->]. cbn [rbind].
   match goal with |- context [csum_finish ?x] => destruct (csum_finish_ok x) as [c ->] end. cbn [rbind]. eexists. reflexivity.
 Qed.
@@ -2404,4 +2415,13 @@ Proof.
   intros v h4 os pref valid L4 Hok Hn. destruct (rewrite_v6_lifetimes_spec v h4 os pref valid L4 Hok) as [dp E]. rewrite E. do 2 f_equal. clear E.
   induction os as [|o r IH]; [reflexivity|]. inversion Hn; subst. inversion Hok; subst. cbn [map]. rewrite rw_opt_other by assumption.
   f_equal. apply IH; assumption.
+Qed.
+
+(* ================================================================== admissible choices left open by the property *)
+(* an oversize payload (no well-formed frame exists) may be refused *)
+Lemma frame_ovf_refuses : forall v src dst sp dp payload s4 d4, to4 src = Some s4 -> to4 dst = Some d4 -> 65507 < blen payload ->
+  build_ipv4_udp_frame v true src dst sp dp payload = Ok None.
+Proof.
+  intros v src dst sp dp payload s4 d4 Hs Hd Hl. unfold build_ipv4_udp_frame. rewrite Hs, Hd. cbn zeta.
+  replace (65535 <? 20 + (8 + blen payload)) with true by (symmetry; apply N.ltb_lt; lia). reflexivity.
 Qed.
